@@ -326,6 +326,23 @@ type aCovert struct {
 	expectUp int
 	reply    []byte
 	sessions []*aCovSession
+	// resetOnAccept makes the listener answer the next connections with an immediate RST
+	resetOnAccept bool
+	resets        int
+}
+
+// ArmReset makes the covert reset every connection as soon as it is accepted.
+func (c *aCovert) ArmReset(on bool) {
+	c.mu.Lock()
+	c.resetOnAccept, c.resets, c.sessions = on, 0, nil
+	c.mu.Unlock()
+}
+
+// Resets returns how many connections were reset since ArmReset.
+func (c *aCovert) Resets() int {
+	c.mu.Lock()
+	defer c.mu.Unlock()
+	return c.resets
 }
 
 func aNewCovert(tb testing.TB) *aCovert {
@@ -341,6 +358,15 @@ func aNewCovert(tb testing.TB) *aCovert {
 				return
 			}
 			c.mu.Lock()
+			if c.resetOnAccept {
+				if tc, ok := conn.(*net.TCPConn); ok {
+					_ = tc.SetLinger(0)
+				}
+				conn.Close()
+				c.resets++
+				c.mu.Unlock()
+				continue
+			}
 			s := &aCovSession{Done: make(chan struct{}), conn: conn}
 			c.sessions = append(c.sessions, s)
 			expect, reply := c.expectUp, c.reply
